@@ -2,6 +2,7 @@ import Nstd.Server.LemmasC14F
 import Nstd.Server.BatchC14
 import Nstd.Server.KeepsC14
 import Nstd.Server.TermC14
+import Nstd.Server.LiveKeepC14
 /-
   C14 — property theorems about the transition-system model of `Server::run()` (ModelC14.lean).
 
@@ -12,15 +13,16 @@ import Nstd.Server.TermC14
   time advance) and ANY send outcome.  Callbacks are scripts that create / remove timers and remove /
   suspend / resume / read / write any object, also the one being called or the client being accepted.
 
-  OPEN (not proved; fairness / real time — see the evidence notes):
-   * ready_eventually_dispatched: under a fair kernel every registered ready socket is eventually
-     dispatched.  Proved: one buffered event per poll, FIFO (`poll_delivers_buffered_first`), the batch only
-     shrinks until the kernel is asked again (`poll_step_drains_batch`, `batch_only_shrinks_outside_poll`),
-     what the kernel reports is buffered in order (`poll_buffers_reported`), only registered kinds are
-     dispatched, and — for quiet callback scripts (no timer creation, no read/write inside callbacks) — run()
-     reaches the next kernel query after finitely many steps (`kernel_is_asked_again`).  Not proved: the same for
-     arbitrary scripts (false in general: a script may re-queue a closed client forever) and the kernel's
-     fairness itself (an assumption about the environment).
+  CLOSED in the extension round: ready_eventually_dispatched (below, section "liveness") — for arbitrary callback
+  scripts, under the explicit hypotheses `KernelFair` (environment) and `ClosingCalm` (an onClosed callback does not
+  make a client fail again — without it the C++ closing loop itself never ends).
+
+  OPEN (not proved; real time / memory model — see the evidence notes):
+   * `KernelFair` for a concrete infinite run is shown only on finite prefixes (`exLive`: the hypotheses' parts are
+     inhabited step by step); that the Linux kernel is fair in this sense is an assumption about the environment.
+   * `ClockOk` (the clock is not behind the `now` the timer loop sampled) is a hypothesis of the liveness theorems about
+     the start state: it holds when run() is entered and after every poll step, but `reach` also contains histories in
+     which an environment move sets the clock back while the timer loop runs.
    * interrupt() from a second thread is modelled as two moves (`intrBegin`: test-and-set of the flag under
      the mutex, `intrEnd`: write of the event descriptor) that interleave with the steps of run() in any
      way; weak-memory effects on the unlocked read of `_interrupted` in run() are not modelled.
@@ -474,6 +476,124 @@ theorem kernel_is_asked_again (ms : List Move) (f : Nat → PollIn × Outcome)
   kernel_asked_again _ (reach ms) f rfl (inv_reach ms) hg
 
 example : QuietScripts init := by intro i k a h; simp [init] at h
+
+
+/-! ### liveness: ready_eventually_dispatched (extension round) -/
+
+/-- entering run() establishes `ClockOk`, every step keeps it (and every poll step re-establishes it) -/
+theorem clock_ok_on_entry (s : St) (h : s.pc = .idle) : ClockOk (enterRun s) := by
+  intro now hp
+  unfold enterRun at hp ⊢
+  simp only [h, if_true] at hp ⊢
+  injection hp with e
+  subst e
+  exact Int.le_refl _
+
+theorem clock_ok_kept (s : St) (f : Nat → PollIn × Outcome) (n : Nat) (h : ClockOk s) : ClockOk (runN s f n) :=
+  runN_clockOk s f n h
+
+/-- scripts without read / write (timer creation, removals, suspend / resume, object creation, interrupt allowed) never keep
+    the closing loop busy: `ClosingCalm` holds along the whole run -/
+theorem closing_calm_of_scripts_without_io (ms : List Move) (f : Nat → PollIn × Outcome)
+    (h : ∀ i k a, a ∈ (reach ms).scripts i k → NoIOAct a) (n : Nat) : ClosingCalm (runN (reach ms) f n) :=
+  closingCalm_run_of_noIO (reach ms) f (inv_reach ms) h n
+
+/-- progress for ARBITRARY scripts (generalises `kernel_is_asked_again`): after every point of every run, run() asks the
+    kernel again (poll with an empty pending batch) or has returned.  Lexicographic measure (pending batch length, phase,
+    lateness of the timer queue / closing-list length): timers created by callbacks are due after `now`, reads and writes
+    outside the closing loop only lengthen the closing list while the phase is higher. -/
+theorem kernel_is_asked_again_any_scripts (ms : List Move) (f : Nat → PollIn × Outcome) (hck : ClockOk (reach ms))
+    (hg : ∀ n, ClosingCalm (runN (reach ms) f n)) (k : Nat) :
+    ∃ m, k ≤ m ∧ ((runN (reach ms) f m).pc = .idle ∨ Query (runN (reach ms) f m)) :=
+  kernel_asked_infinitely_often (reach ms) f (inv_reach ms) hck hg k
+
+/-- bounded progress of one event: an event pending in the batch is handed to the dispatch switch after finitely many steps
+    (the measure above bounds them) unless run() returns or set()/remove() on its socket prunes it -/
+theorem pending_event_dispatched_or_pruned (ms : List Move) (f : Nat → PollIn × Outcome) (i : Id) (fl : Flags)
+    (hck : ClockOk (reach ms)) (hg : ∀ n, ClosingCalm (runN (reach ms) f n)) (hp : lookup (reach ms).selected i = some fl) :
+    ∃ n, (runN (reach ms) f n).pc = .idle ∨ HandsOut (runN (reach ms) f n) (f n).1 i fl ∨
+      PrunedAt (runN (reach ms) f n) (f n).1 (f n).2 i fl :=
+  pending_event_fate _ (reach ms) f i fl rfl (inv_reach ms) hck hg hp
+
+/-- ready_eventually_dispatched: along every infinite run of run() from a reachable state, for every sequence of kernel
+    answers and send outcomes `f` that is FAIR to socket `i` (`KernelFair`: if the kernel is asked again and again, then again
+    and again an answer reports `i` ready) and ARBITRARY callback scripts subject to `ClosingCalm`: after every point `k` of
+    the run there is a later step `m` at which run() has returned (interrupt), or hands a non-empty event of `i` to its
+    dispatch switch (`dispatch_only_registered_kinds`: the callback is of a kind `i` is registered for), or an event of `i`
+    that the kernel reported is pruned by set()/remove() on `i` (`event_pruned_only_through_its_socket`). -/
+theorem ready_eventually_dispatched (ms : List Move) (f : Nat → PollIn × Outcome) (i : Id) (hck : ClockOk (reach ms))
+    (hg : ∀ n, ClosingCalm (runN (reach ms) f n)) (hfair : KernelFair (reach ms) f i) (k : Nat) :
+    ∃ m, k ≤ m ∧ ((runN (reach ms) f m).pc = .idle ∨
+      ∃ fl, fl.isZero = false ∧
+        (HandsOut (runN (reach ms) f m) (f m).1 i fl ∨ PrunedAt (runN (reach ms) f m) (f m).1 (f m).2 i fl)) :=
+  ready_eventually_dispatched_run (reach ms) f i (inv_reach ms) hck hg hfair k
+
+/-- `Poll::set(j, …)` and `Poll::remove(j)` leave the pending event of every other socket alone; `Poll::set(i, ev)` that still
+    covers the pending flags of `i` leaves it alone as well -/
+theorem poll_set_remove_keep_other_events (s : St) (i j : Id) (ev : Flags) (h : i ≠ j) :
+    lookup (pollSet s j ev).selected i = lookup s.selected i ∧ lookup (pollRemove s j).selected i = lookup s.selected i :=
+  ⟨pollSet_selKept i s j ev h, pollRemove_selKept i s j h⟩
+
+theorem poll_set_covering_keeps_event (s : St) (i : Id) (ev old fl : Flags) (ho : lookup s.sockets i = some old)
+    (hp : lookup s.selected i = some fl) (hnz : fl.isZero = false) (hsub : fl.sub ev) :
+    lookup (pollSet s i ev).selected i = some fl :=
+  pollSet_selKept_covering s i ev old fl ho hp hnz hsub
+
+/-- what `PrunedAt` means: when no script in effect calls suspend / resume / write / remove on socket `i` (or re-creates an
+    object under its id), an event of `i` in the batch of a step is handed out by that step, or is still pending unchanged
+    after it, or the closing loop is handling client `i` itself.  For every reachable state, any kernel answer. -/
+theorem event_pruned_only_through_its_socket (ms : List Move) (inp : PollIn) (o : Outcome) (i : Id) (fl : Flags)
+    (hnt : NoTouch (reach ms).scripts i) (hb : InBatch (reach ms) inp i fl) :
+    HandsOut (reach ms) inp i fl ∨ lookup (step (reach ms) inp o).1.selected i = some fl ∨
+      ((∃ now tmo, (reach ms).pc = .closing now tmo) ∧ (reach ms).closing.head? = some i) :=
+  step_keeps_untouched_event (reach ms) inp o i fl (inv_reach ms) hnt hb
+
+/-- ready_eventually_dispatched for a socket no callback script touches: it IS dispatched again and again (or run() returns, or
+    the client failed and gets onClosed instead) -/
+theorem ready_eventually_dispatched_untouched_socket (ms : List Move) (f : Nat → PollIn × Outcome) (i : Id)
+    (hck : ClockOk (reach ms)) (hg : ∀ n, ClosingCalm (runN (reach ms) f n)) (hnt : NoTouch (reach ms).scripts i)
+    (hfair : KernelFair (reach ms) f i) (k : Nat) :
+    ∃ m, k ≤ m ∧ ((runN (reach ms) f m).pc = .idle ∨
+      (∃ fl, fl.isZero = false ∧ HandsOut (runN (reach ms) f m) (f m).1 i fl) ∨
+      ((∃ now tmo, (runN (reach ms) f m).pc = .closing now tmo) ∧ (runN (reach ms) f m).closing.head? = some i)) :=
+  ready_eventually_dispatched_untouched (reach ms) f i (inv_reach ms) hck hg hnt hfair k
+
+/-- non-vacuity: two socket-pair clients with unread input, a timer whose callback creates another timer (not a quiet
+    script), the kernel reports client 2 before client 1 at every query -/
+def exLive : List Move :=
+  [.mkPair 1, .mkPair 2, .env (.peerSend 1 5), .env (.peerSend 2 5), .act (.mkTimer 3 7), .script 3 0 [.mkTimer 4 1], .enter]
+
+def exLiveF : Nat → PollIn × Outcome := fun _ => ({ events := [(2, { inn := true }), (1, { inn := true })], dt := 7 }, .all)
+
+example : ClockOk (reach exLive) := clock_ok_on_entry _ (by decide)
+
+example : ∀ n, ClosingCalm (runN (reach exLive) exLiveF n) :=
+  closing_calm_of_scripts_without_io exLive exLiveF (by
+    intro i k a h
+    have : (reach exLive).scripts i k = if i = 3 ∧ k = 0 then [.mkTimer 4 1] else [] := rfl
+    rw [this] at h
+    split at h
+    · simp at h; subst h; trivial
+    · simp at h)
+
+example : NoTouch (reach exLive).scripts 1 := by
+  intro j k a h
+  have : (reach exLive).scripts j k = if j = 3 ∧ k = 0 then [.mkTimer 4 1] else [] := rfl
+  rw [this] at h
+  split at h
+  · simp at h; subst h; simp [Touches]
+  · simp at h
+
+/-- the first query (step 3) reports both sockets; client 2 is handed out at once, client 1 stays in the batch and is handed
+    out by the next poll step (step 7); the second query (step 10, after the timer callback created timer 4) reports them again -/
+example : Query (runN (reach exLive) exLiveF 3) ∧
+    ReportsAt (runN (reach exLive) exLiveF 3) (exLiveF 3).1 1 { r := true } ∧
+    HandsOut (runN (reach exLive) exLiveF 3) (exLiveF 3).1 2 { r := true } ∧
+    InBatch (runN (reach exLive) exLiveF 4) (exLiveF 4).1 1 { r := true } ∧
+    HandsOut (runN (reach exLive) exLiveF 7) (exLiveF 7).1 1 { r := true } ∧
+    Query (runN (reach exLive) exLiveF 10) ∧ ReportsAt (runN (reach exLive) exLiveF 10) (exLiveF 10).1 1 { r := true } := by
+  refine ⟨⟨1000, 7, by decide, by decide⟩, ⟨by decide, by decide⟩, ⟨⟨1000, 7, by decide⟩, by decide⟩, Or.inl (by decide),
+    ⟨⟨1007, 1, by decide⟩, by decide⟩, ⟨1007, 1, by decide, by decide⟩, ⟨by decide, by decide⟩⟩
 
 /-- interrupt() sets the flag (idempotently) -/
 theorem interrupt_sets_flag (s : St) : (applyAct s none .interrupt).interrupted = true := by
